@@ -13,7 +13,7 @@ RULE = ('Hypothesis-generated cuts on random references: NlaIII (CATG planted at
         'unmapped R2, options check_motif, allow_cycle_shift, invert_strand, no_umi_cigar_processing, trimmed and '
         'untrimmed CHIC layout. Oracle: the simulator\'s cut coordinate (absolute) and the mirror relation '
         'DS\' = L-4-DS (NlaIII) / L-1-DS (scCHIC), RS\' = not RS, equal validity and equal fragment equality. '
-        'Non-trivial: clip > 0, mutated or shifted motif, or a non-default option.')
+        'Non-trivial: clip > 0, mutated or shifted motif, or a non-default option. Part radius: 2..5 scCHIC cuts of one cell/UMI within an assignment radius (1..50) as one CHICMolecule, forward and mirrored: number of molecules equal, DS of every read mirrored, the site one of the cuts (non-trivial: >= 2 different cuts). Part no_overhang: NlaIII reads without the CATG (method nla_no_overhang) on a reference with planted motifs only, both strands, gaps 0..4 between motif and read, reads of opposite strands sharing a boundary coordinate, every read also mirrored on the reverse-complemented contig of the same FASTA handle; oracle: the CATG closest to the read within the 7 flanking reference bases.')
 ASSUMPTIONS = ['under no_umi_cigar_processing only the mirror relation is asserted',
                'with check_motif=False only intact / mismatched motifs are generated (a cycle shift is then undefined)',
                'trimmed scCHIC layout = exactly one base removed from the read start (SCCHIC_384w demultiplexer)']
@@ -219,6 +219,193 @@ def eval_case(case):
     return out
 
 
+# ------------------------------------------------------------------ scCHIC molecules with an assignment radius
+
+def radius_strategy():
+    @st.composite
+    def case(draw):
+        L = draw(st.integers(150, 400))
+        ref = ''.join(draw(st.lists(st.sampled_from('ACGT'), min_size=L, max_size=L)))
+        radius = draw(st.sampled_from([1, 2, 5, 10, 50]))
+        base = draw(st.integers(5, L - 90))
+        n = draw(st.integers(2, 5))
+        cuts = [base] + [base + draw(st.one_of(st.integers(0, radius), st.integers(0, 2 * radius + 3))) for _ in range(n - 1)]
+        cuts = [min(c, L - 45) for c in cuts]
+        order = draw(st.permutations(list(range(n))))
+        frs = [{'site': cuts[i], 'rlen': draw(st.integers(15, 40)), 'trimmed': draw(st.booleans())} for i in order]
+        return {'ref': ref, 'radius': radius, 'frags': frs}
+    return case()
+
+
+def eval_radius(case):
+    """Several scCHIC cuts of one cell / UMI within the assignment radius form one molecule that carries ONE site; the same
+    cuts mirrored onto the reverse strand of the reverse-complemented reference must give the mirrored site on every read
+    (which of the cuts it is, is not asserted) and the same number of molecules."""
+    from singlecellmultiomics.fragment import CHICFragment
+    from singlecellmultiomics.molecule import CHICMolecule
+    out = Outcome()
+    L = len(case['ref'])
+    h = header([('chrT', L)])
+    res = {}
+    try:
+        for orient in ('fwd', 'rev'):
+            mols = []
+            reads = []
+            for i, f in enumerate(case['frags']):
+                a0 = f['site'] + (1 if f['trimmed'] else 0)
+                r = {'pos': a0, 'cigar': '%dM' % f['rlen'], 'seq': case['ref'][a0:a0 + f['rlen']], 'reverse': False}
+                r['cigar'] = '%dM' % len(r['seq'])
+                if orient == 'rev':
+                    r = mirror_read(r, L)
+                tags = {'lh': 'TA'}
+                if f['trimmed']:
+                    tags['MX'] = 'scCHIC384C8U3'
+                a = mk_read(h, '%s%d' % (orient, i), 0, r['pos'], r['seq'], reverse=r['reverse'], cigar=r['cigar'], tags=tags)
+                fr = CHICFragment([a, None], umi_hamming_distance=0, assignment_radius=case['radius'])
+                reads.append(a)
+                for m in mols:
+                    if m.add_fragment(fr, use_hash=True):
+                        break
+                else:
+                    mols.append(CHICMolecule(fr))
+            for m in mols:
+                m.write_tags()
+            res[orient] = (len(mols), [a.get_tag('DS') if a.has_tag('DS') else None for a in reads],
+                           [a.get_tag('RS') if a.has_tag('RS') else None for a in reads])
+    except Exception as e:
+        import traceback
+        tb = [x for x in traceback.extract_tb(e.__traceback__) if 'singlecellmultiomics' in x.filename]
+        return out.bad('radius:exception:%s:%s' % (type(e).__name__, tb[-1].name if tb else 'harness'), repr(e))
+    (nf, dsf, rsf), (nr, dsr, rsr) = res['fwd'], res['rev']
+    if nf != nr:
+        out.bad('radius:mirror:number-of-molecules-differs', 'forward %d molecules, mirrored %d; cuts %r radius %d' % (nf, nr, [f['site'] for f in case['frags']], case['radius']))
+    else:
+        for i, (a, b) in enumerate(zip(dsf, dsr)):
+            if a is None or b is None:
+                if (a is None) != (b is None):
+                    out.bad('radius:mirror:site-missing-on-one-strand', 'read %d: forward DS %r mirrored DS %r' % (i, a, b))
+                continue
+            if b != L - 1 - a:
+                out.bad('radius:mirror:site-not-mirrored', 'read %d of a molecule over cuts %r (radius %d): forward DS %r, mirrored DS %r, expected %r' % (
+                    i, sorted(f['site'] - 1 for f in case['frags']), case['radius'], a, b, L - 1 - a))
+                break
+        cuts = {f['site'] - 1 for f in case['frags']}
+        if nf == 1 and dsf[0] is not None and (len(set(dsf)) != 1 or dsf[0] not in cuts):
+            out.bad('radius:molecule-site-is-not-one-of-its-cuts', 'DS %r cuts %r' % (dsf, sorted(cuts)))
+    out.nontrivial = len({f['site'] for f in case['frags']}) >= 2
+    out.label('molecules:%d' % nf)
+    return out
+
+
+# ------------------------------------------------------------------ NlaIII without the overhang in the read
+
+def no_overhang_strategy():
+    @st.composite
+    def case(draw):
+        L = draw(st.integers(120, 300))
+        ref = list(draw(st.lists(st.sampled_from('ACGT'), min_size=L, max_size=L)))
+        s = ''.join(ref).replace('CATG', 'CTTG')      # no accidental motifs
+        ref = list(s)
+        nsite = draw(st.integers(1, 4))
+        sites = sorted(draw(st.lists(st.integers(12, L - 16), min_size=nsite, max_size=nsite, unique=True)))
+        sites = [x for i, x in enumerate(sites) if i == 0 or x - sites[i - 1] >= 4]
+        for x in sites:
+            ref[x:x + 4] = list('CATG')
+        frags = []
+        for _ in range(draw(st.integers(1, 6))):
+            # a read next to a site (gap 0..4 between the CATG and the read; 4 is just too far), or anywhere, or sharing
+            # its boundary coordinate with another read on the opposite strand
+            kind = draw(st.sampled_from(['near', 'near', 'any', 'abut']))
+            rev = draw(st.booleans())
+            ln = draw(st.integers(10, 30))
+            if kind == 'near' or not frags:
+                x = draw(st.sampled_from(sites))
+                gap = draw(st.integers(0, 4))
+                start = (x + 4 + gap) if not rev else (x - gap - ln)
+            elif kind == 'any':
+                start = draw(st.integers(8, L - 40))
+            else:
+                o = frags[draw(st.integers(0, len(frags) - 1))]
+                rev = not o['rev']
+                start = (o['start'] + o['len']) if not rev else (o['start'] - ln)     # a + read starting where a - read ends, or vice versa
+            start = max(8, min(L - ln - 8, start))
+            frags.append({'start': start, 'len': ln, 'rev': rev})
+        return {'ref': ''.join(ref), 'frags': frags}
+    return case()
+
+
+def expected_no_overhang(ref, start, end, rev):
+    """site of the CATG closest to the read within the 7 reference bases outside the read start, or None"""
+    if not rev:
+        flank = ref[start - 7:start]
+        k = flank.rfind('CATG')
+        return None if k < 0 else start - 7 + k
+    flank = ref[end:end + 7]
+    k = flank.find('CATG')
+    return None if k < 0 else end + k
+
+
+def eval_no_overhang(case):
+    import os
+    import pysam
+    from ..core import scratch_dir
+    from singlecellmultiomics.fragment import NlaIIIFragment
+    out = Outcome()
+    ref = case['ref']
+    L = len(ref)
+    fa = os.path.join(scratch_dir(), 'c09_%d.fa' % os.getpid())
+    with open(fa, 'w') as f:
+        f.write('>chrT\n%s\n>chrM\n%s\n' % (ref, revcomp(ref)))
+    if os.path.exists(fa + '.fai'):
+        os.remove(fa + '.fai')
+    pysam.faidx(fa)
+    h = header([('chrT', L), ('chrM', L)])
+    hit = False
+    try:
+        with pysam.FastaFile(fa) as fasta:
+            for i, f in enumerate(case['frags']):
+                for tid, mirrored in ((0, False), (1, True)):
+                    start, rev = f['start'], f['rev']
+                    if mirrored:
+                        start, rev = L - (f['start'] + f['len']), not f['rev']
+                    src = ref if not mirrored else revcomp(ref)
+                    seq = src[start:start + f['len']]
+                    a = mk_read(h, 'n%d_%d' % (i, tid), tid, start, seq, reverse=rev, cigar='%dM' % len(seq))
+                    try:
+                        fr = NlaIIIFragment([a, None], umi_hamming_distance=0, no_overhang=True, reference=fasta)
+                    except Exception as e:
+                        import traceback
+                        tb = [x for x in traceback.extract_tb(e.__traceback__) if 'singlecellmultiomics' in x.filename]
+                        out.bad('no_overhang:exception:%s:%s' % (type(e).__name__, tb[-1].name if tb else 'harness'), repr(e))
+                        continue
+                    exp = expected_no_overhang(src, start, start + len(seq), rev)
+                    ob = observe(fr, a)
+                    where = 'no_overhang:%s' % ('rev' if rev else 'fwd')
+                    if exp is None:
+                        if ob['valid'] or ob['DS'] is not None:
+                            out.bad('%s:accepted-without-motif-next-to-the-read' % where, 'read %d-%d %s: %r; flank has no CATG' % (start, start + len(seq), 'rev' if rev else 'fwd', ob))
+                    else:
+                        hit = True
+                        if not ob['valid']:
+                            out.bad('%s:rejected-with-motif-next-to-the-read' % where, 'read %d-%d: CATG at %d; %r' % (start, start + len(seq), exp, ob))
+                        elif ob['DS'] != exp:
+                            out.bad('%s:wrong-site' % where, 'read %d-%d: CATG at %d, DS %r' % (start, start + len(seq), exp, ob['DS']))
+                        elif ob['RS'] is not None and bool(ob['RS']) != rev:
+                            out.bad('%s:wrong-strand' % where, 'RS %r' % ob['RS'])
+    finally:
+        for p_ in (fa, fa + '.fai'):
+            if os.path.exists(p_):
+                os.remove(p_)
+    seen = {}
+    for s_, m_ in out.violations:
+        seen.setdefault(s_, m_)
+    out.violations = list(seen.items())
+    out.nontrivial = hit and len(case['frags']) >= 2
+    return out
+
+
 def parts(tier):
     t = tier == 'thorough'
-    return [Part('cuts', eval_case, strategy=strategy, examples=600000 if t else 12000)]
+    return [Part('cuts', eval_case, strategy=strategy, examples=600000 if t else 12000),
+            Part('radius', eval_radius, strategy=radius_strategy, examples=60000 if t else 2000),
+            Part('no_overhang', eval_no_overhang, strategy=no_overhang_strategy, examples=60000 if t else 2000)]
